@@ -141,6 +141,12 @@ type c55Bytes struct {
 var c55Reps = []string{"\x00", "\t", "\n", "\r", " ", "!", "\"", "(", ",", "/", ":", "A", "a", "~", "\x7f", "\x80", "\xff", "é", "K", "ſ",
 	"\x1f", "@", "[", "`", "{", "0", "9", "Z", "z"}
 
+// Padding pieces for the "pad" part: the two OWS bytes, the other ASCII
+// whitespace / control bytes, raw high bytes that are Latin-1 spaces, and UTF-8
+// encodings of Unicode spaces (and two non-space look-alikes), plus the comma.
+var c55PadPieces = []string{" ", "\t", "\n", "\v", "\f", "\r", "\x00", "\x1f", "\x85", "\xa0", "\xc2",
+	"\u0085", "\u00a0", "\u1680", "\u2003", "\u2028", "\u202f", "\u3000", "\u200b", "\ufeff", ","}
+
 func c55CheckNameValue(w *vx.W, s []byte) (nameOK, valueOK bool) {
 	wantN, wantV := c55RefName(s), c55RefValue(s)
 	str := string(s)
@@ -198,6 +204,7 @@ func TestVerif_C55(t *testing.T) {
 			"bytes: ValidHeaderFieldName and ValidHeaderFieldValue on EVERY byte string of length <= 3 (thorough: <= 4) — a case is a prefix of <= 2 bytes and covers all suffixes of the stated length; " +
 			"reps: every string of <= 4 (thorough <= 5) representatives from {NUL HT LF CR SP ! \" ( , / : A a ~ DEL 0x80 0xff é U+212A U+017F 0x1f @ [ ` { 0 9 Z z}; non-trivial = at least one of the two predicates accepts (the whole string was scanned). " +
 			"fold: HeaderValuesContainsToken([pad X pad], Y) for every byte X, every tchar Y, pad in {none, SP, HT}; " +
+			"pad: L + element + R alone and inside a comma-separated list (shapes {E; a,E; E,b; a,SP E HT,b}), element/token pairs {tok/tok tok/TOK Tok/tok k/K}, with (L,R) ranging over every pair from {none, each single byte 0x00..0xff} and over every pair of strings of <= 2 pieces from {SP HT LF VT FF CR NUL 0x1f 0x85 0xa0 0xc2 U+0085 U+00A0 U+1680 U+2003 U+2028 U+202F U+3000 U+200B U+FEFF ,} (raw bytes and UTF-8) — only SP/HT padding may be trimmed; a case fixes L, shape and token and covers every R; " +
 			"contains: one value of <= 5 fragments, or two values of <= 2 (thorough <= 3) fragments each, fragments {tok TOK to tokx SP HT , ; \" U+212A U+017F}, tokens {tok Tok k s}; also the nil and empty value lists; non-trivial = some trimmed element has the token's length (byte comparison reached)")
 		c.Assume("IsTokenRune is checked for valid rune values 0..0x10FFFF only; negative int32 values (not runes) are excluded — note IsTokenRune(-223) is true because byte(r) wraps")
 		c.Assume("HeaderValuesContainsToken: the token argument is a non-empty RFC 9110 token (ASCII); empty or non-ASCII 'tokens' are excluded because the statement does not define them")
@@ -370,6 +377,54 @@ func TestVerif_C55(t *testing.T) {
 			pad := []string{"", " ", "\t"}[x.Pad]
 			c55CheckContains(w, c55TokCase{Values: []string{pad + string([]byte{byte(x.X)}) + pad}, Token: string([]byte{byte(x.Y)})})
 		})
+
+		// --- trimming: only SP / HTAB around an element are removed
+		// Every padding string from the stated family is put to the left and to
+		// the right of an otherwise matching element, alone and inside a list.
+		// A case fixes the left padding, the shape and the token and covers
+		// every right padding of the family.
+		var padBytes, padPairs []string
+		padBytes = append(padBytes, "")
+		for b := 0; b < 256; b++ {
+			padBytes = append(padBytes, string([]byte{byte(b)}))
+		}
+		vx.Strings(c55PadPieces, 0, 2, func(f []string) bool { padPairs = append(padPairs, vx.Concat(f)); return true })
+		padShapes := []struct{ pre, post string }{{"", ""}, {"a,", ""}, {"", ",b"}, {"a, ", "\t,b"}}
+		padToks := []struct{ el, tok string }{{"tok", "tok"}, {"tok", "TOK"}, {"Tok", "tok"}, {"k", "K"}}
+		type padCase struct {
+			Family string `json:"family"` // "byte": right padding = none or any one byte; "pair": right padding = any <= 2 pieces
+			Left   string `json:"left_pad"`
+			Shape  int    `json:"shape"`
+			Tok    int    `json:"token"`
+		}
+		var nPad int64
+		vx.Enumerate(c, "pad", vx.Opts{NoSample: true}, func(yield func(padCase) bool) {
+			for fi, fam := range [][]string{padBytes, padPairs} {
+				for _, l := range fam {
+					for sh := range padShapes {
+						for tk := range padToks {
+							if !yield(padCase{[]string{"byte", "pair"}[fi], l, sh, tk}) {
+								return
+							}
+							nPad += int64(len(fam))
+						}
+					}
+				}
+			}
+		}, func(w *vx.W, x padCase) {
+			fam := padBytes
+			if x.Family == "pair" {
+				fam = padPairs
+			}
+			sh, tk := padShapes[x.Shape], padToks[x.Tok]
+			for _, r := range fam {
+				c55CheckContains(w, c55TokCase{Values: []string{sh.pre + x.Left + tk.el + r + sh.post}, Token: tk.tok})
+				if w.Failed() {
+					return
+				}
+			}
+		})
+		c.Note("pad.strings_evaluated", nPad)
 
 		// --- HeaderValuesContainsToken over fragment strings
 		frags := []string{"tok", "TOK", "to", "tokx", " ", "\t", ",", ";", "\"", "K", "ſ"}
